@@ -8,6 +8,7 @@ S4  no panic edge on the parse path of the three accessors
 Hand step: from_bytes_until_nul only inspects the slice it is given, which ends at the declared size (C05).
 """
 from .. import an
+from .. import select as SEL
 from .. import chain as CH
 from .. import guard as G
 from .. import layout as L
@@ -67,14 +68,27 @@ def run(ctx):
         for pi in range(1, ctor[0]["body"]["argc"] + 1):
             if ctor[0]["body"]["locals"][pi]["ty"] == "&str":
                 sarg = arg(pi)
-        ok_n = len(exs) == 2 and sarg is not None
+        # variants = (guard, slice list): one per new_boxed exit, or the two sides of a conditional terminator piece
+        # (`let t: &[u8] = if s.ends_with(&[0]) { &[] } else { &[0] }; new_boxed(h, &[.., s, t])`); empty pieces add nothing
+        variants = []
+        for e in exs:
+            pcs = list(slices_of(N(e.val)))
+            own = [N(f) for f in e.own]
+            pcs = [SEL.canon_place(p) for p in pcs]
+            ites = [p for p in pcs if p[0] == "ite"]
+            if not ites:
+                variants.append((own, [p for p in pcs if not is_empty_piece(p)]))
+            elif len(ites) == 1:
+                it = ites[0]
+                c = N(it[1])
+                for (g, val) in ((c, it[2]), (G.negate(c), it[3])):
+                    variants.append(([g], [p for p in [val if q is it else q for q in pcs] if not is_empty_piece(p)]))
+        ok_n = len(variants) == 2 and sarg is not None
         with_nul = without = None
-        why = "exits %d" % len(exs)
+        why = "exits %d, variants %d" % (len(exs), len(variants))
         if ok_n:
             cond = ("istrue", ("call", "core::slice::<impl [u8]>::ends_with", (sarg, NUL)))
-            for e in exs:
-                pcs = list(slices_of(N(e.val)))
-                own = [N(f) for f in e.own]
+            for own, pcs in variants:
                 if own == [cond]:
                     with_nul = pcs
                 elif own == [("not", cond)]:
@@ -109,6 +123,11 @@ def run(ctx):
         ["rustc MIR", "mb2rules CHAIN/TERMS/PANIC", "std: CStr::from_bytes_until_nul, CStr::to_str, slice::ends_with", "C05, C16"],
         "one obligation per constructor, accessor, decoder exit",
     )
+
+
+def is_empty_piece(p):
+    p = N(p)
+    return p[0] == "unsize" and p[3] == "&[u8; 0]"
 
 
 def slices_of(v):
